@@ -37,6 +37,11 @@ func genC07(r *Rng, tier string, idx int) *Plan {
 	}
 	p.Knobs["nodes"] = int64(nodes)
 	p.Knobs["forward"] = int64(r.Intn(2))
+	if idx%4 == 2 {
+		// every node runs with the same memory limit and no eviction: writes are refused at or above the limit, on
+		// every node alike (the figure is part of the replicated state machine's behaviour)
+		p.Knobs["maxmem"] = int64(r.Range(250, 1200))
+	}
 	p.Knobs["drop"] = int64(Pick(r, []int{0, 0, 10, 30}))
 	p.Knobs["dup"] = int64(Pick(r, []int{0, 0, 20}))
 	for i := 0; i < nodes; i++ {
@@ -87,7 +92,30 @@ func genC07(r *Rng, tier string, idx int) *Plan {
 				target = r.Intn(nodes)
 			}
 			a := g.Cmd(r)
-			if a[0] == "SET" && len(a) == 3 {
+			if p.Knobs["maxmem"] > 0 && r.Chance(0.7) {
+				// near the limit what counts is how the usage figure moves: collections that grow and shrink in place
+				// by several members at once, and plain writes of different sizes
+				k := g.key(r)
+				switch r.Intn(8) {
+				case 0:
+					a = append([]string{"SADD", k}, members...)
+				case 1:
+					a = append([]string{"SREM", k}, members[:r.Range(2, 5)]...)
+				case 2:
+					a = []string{"ZADD", k, "1", "a", "2", "b", "3", "c", "4", "d", "5", "e"}
+				case 3:
+					a = append([]string{"ZREM", k}, members[:r.Range(2, 5)]...)
+				case 4:
+					a = []string{"HSET", k, "f1", strings.Repeat("h", r.Range(1, 60)), "f2", "x"}
+				case 5:
+					a = []string{"HDEL", k, "f1", "f2"}
+				case 6:
+					a = []string{"RPUSH", k, strings.Repeat("l", r.Range(1, 40)), "y"}
+				default:
+					a = []string{"SET", k, strings.Repeat("s", r.Range(1, 80))}
+				}
+			}
+			if a[0] == "SET" && len(a) == 3 && p.Knobs["maxmem"] == 0 {
 				uniq++
 				a[2] = fmt.Sprintf("u%d", uniq)
 			}
@@ -148,6 +176,7 @@ func (a *c07Run) bootNode(i int) bool {
 	a.gen++
 	cfg := BaseConfig
 	cfg.ServerID = nodeID(i)
+	cfg.MaxMemory = uint64(a.p.K("maxmem"))
 	cfg.ForwardCommand = a.p.K("forward") == 1
 	if i == 0 {
 		cfg.BootstrapCluster = true
@@ -457,7 +486,10 @@ func (a *c07Run) body() {
 	// bounded liveness: a new write on the leader is acknowledged and reaches every node
 	l := a.leaderIdx()
 	res, done := a.run(a.clients[l], []string{"SET", "final", "marker"}, 3000)
-	if !done || res.IsError() {
+	refused := done && res.IsError() && a.p.K("maxmem") > 0 && strings.Contains(res.Err+res.Reply.Str, "max memory")
+	if refused {
+		// answered - with the refusal the memory limit prescribes; every node must have refused it alike (compared below)
+	} else if !done || res.IsError() {
 		a.fail("liveness/final-write", fmt.Sprintf("after the last fault a write on the leader %s was not acknowledged: done=%v reply=%s", nodeID(l), done, res))
 		return
 	}
@@ -486,6 +518,7 @@ func (a *c07Run) body() {
 	a.gen++
 	cfg := BaseConfig
 	cfg.ServerID = "replay"
+	cfg.MaxMemory = uint64(a.p.K("maxmem"))
 	cfg.JoinAddr = "sim:n1"
 	a.c.booting = a.gen
 	inst, err := a.s.Boot(a.gen, cfg)
